@@ -194,6 +194,13 @@ func (x *fx) replayParams() ([]rparam, string) {
 				return nil, "parameter " + p.n + " of type " + p.t.String()
 			}
 		case *types.Slice:
+			if a, ok := u.Elem().Underlying().(*types.Array); ok {
+				// slice of arrays of integers: enumerated inputs only (bounded stand-ins)
+				if _, ok := isInt(a.Elem()); ok {
+					rp.kind, rp.elem, rp.n = "slicearr", a.Elem(), a.Len()
+					break
+				}
+			}
 			if _, ok := isInt(u.Elem()); !ok && !isBool(u.Elem()) {
 				return nil, "parameter " + p.n + " of type " + p.t.String()
 			}
@@ -477,6 +484,30 @@ func (gg *goGen) gen(e *Expr, bound map[string]bool, old bool) string {
 		// index in the branch not taken must not panic
 		return wrapInt("verifAt("+s+"[:], int("+i+"))", gg.elemIsInt(e.Args[0]))
 	case "slice":
+		// a row of a slice of arrays (data[k][lo:hi]): the total-indexing helper
+		// returns the array by value, which is sliced through a local
+		if ix := e.Args[0]; ix.Op == "index" {
+			base := ix.Args[0]
+			if base.Op == "old" {
+				base = base.Args[0]
+			}
+			if base.Op == "id" {
+				if p, ok := gg.params[base.Name]; ok && p.kind == "slicearr" {
+					lo, hi := "", ""
+					if e.Args[1] != nil {
+						lo = gg.gen(e.Args[1], bound, old)
+					}
+					if e.Args[2] != nil {
+						hi = gg.gen(e.Args[2], bound, old)
+					}
+					save := gg.intMode
+					gg.intMode = false
+					row := gg.gen(ix, bound, old)
+					gg.intMode = save
+					return fmt.Sprintf("func() []%s { a := %s; return a[%s:%s] }()", goTypeString(p.elem, nil), row, lo, hi)
+				}
+			}
+		}
 		s := gg.gen(e.Args[0], bound, old) + "["
 		if e.Args[1] != nil {
 			s += gg.gen(e.Args[1], bound, old)
@@ -631,6 +662,10 @@ func (gg *goGen) elemIsInt(e *Expr) bool {
 	switch e.Op {
 	case "id":
 		if p, ok := gg.params[e.Name]; ok && p.elem != nil {
+			// 64-bit unsigned elements do not fit Go's int: they are compared natively
+			if b, isB := p.elem.Underlying().(*types.Basic); isB && (b.Kind() == types.Uint64 || b.Kind() == types.Uint || b.Kind() == types.Uintptr) {
+				return false
+			}
 			_, ok := isInt(p.elem)
 			return ok
 		}
@@ -660,6 +695,11 @@ func (g *Gen) replayOnRealCode(o *Oblig, work, repo, verif string) map[string]an
 	ps, why := x.replayParams()
 	if ps == nil {
 		return map[string]any{"replay_skipped": "inputs of this function cannot be built from a solver model (" + why + ")"}
+	}
+	for _, p := range ps {
+		if p.kind == "slicearr" && o.Kind != "bounded" {
+			return map[string]any{"replay_skipped": "inputs of this function cannot be built from a solver model (parameter " + p.name + " of type " + p.t.String() + ")"}
+		}
 	}
 	res := x.fn.Signature.Results()
 	gg := &goGen{x: x, params: map[string]rparam{}, named: map[string]int{}, intMode: x.mode == ModeInt}
@@ -695,6 +735,9 @@ func (g *Gen) replayOnRealCode(o *Oblig, work, repo, verif string) map[string]an
 		labels = append(labels, clauseLabel(cl, k))
 	}
 	gg.err = nil
+	if len(enss) == 0 && o.Kind == "bounded" {
+		return map[string]any{"replay_skipped": "no postcondition of the contract is executable against this build: " + strings.Join(skipped, "; ")}
+	}
 	var lits map[string]string
 	var modelText, modelNote string
 	if o.Status == "failed" {
@@ -767,7 +810,7 @@ func genReplayTest(x *fx, ps []rparam, lits map[string]string, reqs, enss, label
 	if tp == nil && x.fn.Origin() != nil {
 		tp = x.fn.Origin().Pkg
 	}
-	fmt.Fprintf(&b, "package %s\n\nimport (\n\t\"fmt\"\n\t\"math/rand\"\n\t\"os\"\n\t\"strconv\"\n\t\"testing\"\n)\n\n", pkgName)
+	fmt.Fprintf(&b, "package %s\n\nimport (\n\t\"fmt\"\n\t\"math/rand\"\n\t\"os\"\n\t\"sort\"\n\t\"strconv\"\n\t\"testing\"\n)\n\nvar _ = sort.Ints\n\n", pkgName)
 	b.WriteString("func ite[T any](c bool, a, b T) T { if c { return a }; return b }\n")
 	b.WriteString("func verifAt[T any](s []T, i int) T { if i < 0 || i >= len(s) { var z T; return z }; return s[i] }\n")
 	b.WriteString("func sameSlice[T any](a, b []T) bool { if len(a) != len(b) { return false }; if len(a) == 0 { return true }; return &a[0] == &b[0] }\n\n")
@@ -784,12 +827,12 @@ func genReplayTest(x *fx, ps []rparam, lits map[string]string, reqs, enss, label
 		switch p.kind {
 		case "int", "bool":
 			fmt.Fprintf(&b, "\tin_%s := %s\n", p.name, p.name)
-		case "slice":
+		case "slice", "slicearr":
 			fmt.Fprintf(&b, "\told_%s := append(%s(nil), %s...)\n", p.name, p.goType, p.name)
 		case "arrayptr":
 			fmt.Fprintf(&b, "\told_%s_v := *%s\n\told_%s := &old_%s_v\n", p.name, p.name, p.name, p.name)
 		}
-		fmt.Fprintf(&b, "\t_ = %s\n", map[string]string{"int": "in_" + p.name, "bool": "in_" + p.name, "slice": "old_" + p.name, "arrayptr": "old_" + p.name}[p.kind])
+		fmt.Fprintf(&b, "\t_ = %s\n", map[string]string{"int": "in_" + p.name, "bool": "in_" + p.name, "slice": "old_" + p.name, "slicearr": "old_" + p.name, "arrayptr": "old_" + p.name}[p.kind])
 	}
 	for _, r := range reqs {
 		fmt.Fprintf(&b, "\tif !(%s) {\n\t\treturn false, \"\"\n\t}\n", r)
@@ -869,9 +912,16 @@ func genReplayTest(x *fx, ps []rparam, lits map[string]string, reqs, enss, label
 				fmt.Fprintf(&b, "\t\tfor i := range %s { %s[i] = r.Intn(2) == 0 }\n", p.name, p.name)
 			} else {
 				fmt.Fprintf(&b, "\t\tfor i := range %s { %s[i] = %s(verifPick(r, %d, %v)) }\n", p.name, p.name, goTypeString(p.elem, tp.Pkg), intWidth(p.elem), intSigned(p.elem))
+				// a quarter of the inputs ascending, a quarter descending (order-sensitive kernels)
+				fmt.Fprintf(&b, "\t\tswitch r.Intn(4) {\n\t\tcase 0:\n\t\t\tsort.Slice(%s, func(i, j int) bool { return %s[i] < %s[j] })\n\t\tcase 1:\n\t\t\tsort.Slice(%s, func(i, j int) bool { return %s[i] > %s[j] })\n\t\t}\n", p.name, p.name, p.name, p.name, p.name, p.name)
 			}
 		case "arrayptr":
 			fmt.Fprintf(&b, "\t\t%s := new(%s)\n\t\tfor i := range %s { %s[i] = %s(verifPick(r, %d, %v)) }\n", p.name, strings.TrimPrefix(p.goType, "*"), p.name, p.name, goTypeString(p.elem, tp.Pkg), intWidth(p.elem), intSigned(p.elem))
+		case "slicearr":
+			// rows often share a prefix with the previous row (lexicographic kernels)
+			fmt.Fprintf(&b, "\t\t%s := make(%s, verifLen(r))\n", p.name, p.goType)
+			fmt.Fprintf(&b, "\t\tfor i := range %s {\n\t\t\tshare := 0\n\t\t\tif i > 0 && r.Intn(2) == 0 { share = r.Intn(len(%s[i]) + 1) }\n\t\t\tfor j := range %s[i] {\n\t\t\t\tif j < share { %s[i][j] = %s[i-1][j] } else { %s[i][j] = %s(verifPick(r, %d, %v)) }\n\t\t\t}\n\t\t}\n",
+				p.name, p.name, p.name, p.name, p.name, p.name, goTypeString(p.elem, tp.Pkg), intWidth(p.elem), intSigned(p.elem))
 		}
 	}
 	fmt.Fprintf(&b, "\t\tinput := fmt.Sprintf(\"%s\"", strings.Repeat("%v ", len(ps)))
